@@ -84,7 +84,9 @@ func (enc *encoder) encodeAny(anyField j5reflect.AnyField) error {
 	var jsonData []byte
 	if val.J5Json != nil {
 		jsonData = val.J5Json
-	} else if val.Proto != nil {
+	} else {
+		// No bytes at all is what an inner message without set fields
+		// looks like: it encodes as an empty object.
 
 		mt, err := enc.codec.resolver.FindMessageByName(protoreflect.FullName(val.TypeName))
 		if err != nil {
